@@ -79,6 +79,124 @@ theorem afterUpgrade_eq_ctxOf {cfg : Config} {pre post : State} {c : Ctx}
     rw [ctxOf_congr (cfg := cfg) hslot hv hm e1 e2, hc]
     rfl
 
+/-- **Steps inside an epoch, deposits included.** Slot processing without an epoch transition, or a block with any
+operations: the existing validators keep their pubkeys and effective balances (effective balances change only in
+the epoch transition), deposits with new pubkeys append the validators `news`, everything else written is within
+`EpochWrites`, the state's sync committees are untouched. Then the context of the new state is the old context with
+`afterDeposit` (pubkey cache and effective-balance cache grow) applied for each new validator — in particular
+unchanged when no validator is added. -/
+theorem block_eq_ctxOf {cfg : Config} {N : Nat} {st st1 : State} {c : Ctx} (old news : List Validator)
+    (hc : ctxOf cfg st = .ok c)
+    (hN : get_current_epoch cfg st = N) (hN1 : get_current_epoch cfg st1 = N)
+    (hw : EpochWrites cfg N st st1)
+    (hmin : 1 ≤ cfg.MIN_SEED_LOOKAHEAD) (hmax : 1 ≤ cfg.MAX_SEED_LOOKAHEAD)
+    (hvec : cfg.MIN_SEED_LOOKAHEAD + 3 < cfg.EPOCHS_PER_HISTORICAL_VECTOR) (hfar : N + 1 < FAR_FUTURE_EPOCH)
+    (hvals : st1.validators = old ++ news)
+    (hpk : old.map (·.pubkey) = st.validators.map (·.pubkey))
+    (heff : old.map (·.effective_balance) = st.validators.map (·.effective_balance))
+    (hsc : st1.current_sync_committee = st.current_sync_committee)
+    (hsn : st1.next_sync_committee = st.next_sync_committee) :
+    ctxOf cfg st1 = .ok (news.foldl afterDeposit c) :=
+  block_eq_ctxOf_aux old news hc hN hN1 hw hmin hmax hvec hfar hvals hpk heff hsc hsn
+
+/-- the single-deposit case: a deposit that adds validator `v` -/
+theorem afterDeposit_eq_ctxOf {cfg : Config} {N : Nat} {st st1 : State} {c : Ctx} (v : Validator)
+    (hc : ctxOf cfg st = .ok c)
+    (hN : get_current_epoch cfg st = N) (hN1 : get_current_epoch cfg st1 = N)
+    (hw : EpochWrites cfg N st st1)
+    (hmin : 1 ≤ cfg.MIN_SEED_LOOKAHEAD) (hmax : 1 ≤ cfg.MAX_SEED_LOOKAHEAD)
+    (hvec : cfg.MIN_SEED_LOOKAHEAD + 3 < cfg.EPOCHS_PER_HISTORICAL_VECTOR) (hfar : N + 1 < FAR_FUTURE_EPOCH)
+    (hvals : st1.validators = st.validators ++ [v])
+    (hsc : st1.current_sync_committee = st.current_sync_committee)
+    (hsn : st1.next_sync_committee = st.next_sync_committee) :
+    ctxOf cfg st1 = .ok (afterDeposit c v) :=
+  block_eq_ctxOf st.validators [v] hc hN hN1 hw hmin hmax hvec hfar hvals rfl rfl hsc hsn
+
+/-- The (state, live context) pairs a chain can reach: a context made from scratch (genesis, or a reload), then any
+sequence of steps inside an epoch (blocks with deposits), epoch boundaries (`rotate`) and fork upgrades
+(`afterUpgrade`), each under the hypotheses of the corresponding step theorem. -/
+inductive Reach (cfg : Config) : State → Ctx → Prop where
+  | fresh {st c} : ctxOf cfg st = .ok c → Reach cfg st c
+  | inEpoch {N st st1 c} (old news : List Validator) : Reach cfg st c →
+      get_current_epoch cfg st = N → get_current_epoch cfg st1 = N → EpochWrites cfg N st st1 →
+      1 ≤ cfg.MIN_SEED_LOOKAHEAD → 1 ≤ cfg.MAX_SEED_LOOKAHEAD →
+      cfg.MIN_SEED_LOOKAHEAD + 3 < cfg.EPOCHS_PER_HISTORICAL_VECTOR → N + 1 < FAR_FUTURE_EPOCH →
+      st1.validators = old ++ news → old.map (·.pubkey) = st.validators.map (·.pubkey) →
+      old.map (·.effective_balance) = st.validators.map (·.effective_balance) →
+      st1.current_sync_committee = st.current_sync_committee → st1.next_sync_committee = st.next_sync_committee →
+      Reach cfg st1 (news.foldl afterDeposit c)
+  | boundary {N st st' c c'} : Reach cfg st c →
+      get_current_epoch cfg st = N → get_current_epoch cfg st' = N + 1 → EpochWrites cfg N st st' →
+      1 ≤ cfg.MIN_SEED_LOOKAHEAD → 1 ≤ cfg.MAX_SEED_LOOKAHEAD →
+      cfg.MIN_SEED_LOOKAHEAD + 3 < cfg.EPOCHS_PER_HISTORICAL_VECTOR → N + 1 < FAR_FUTURE_EPOCH →
+      st'.validators.map (·.pubkey) = st.validators.map (·.pubkey) → SyncStep cfg N st st' →
+      rotate cfg c st' = .ok c' → Reach cfg st' c'
+  | upgrade {pre post c c'} : Reach cfg pre c →
+      post.slot = pre.slot → post.validators = pre.validators → post.randao_mixes = pre.randao_mixes →
+      (post.fork ≠ Fork.altair →
+        post.current_sync_committee = pre.current_sync_committee ∧ post.next_sync_committee = pre.next_sync_committee) →
+      afterUpgrade c post = .ok c' → Reach cfg post c'
+
+/-- **Chain invariant.** Along every chain — after each slot, block, deposit, epoch boundary and fork upgrade —
+the incrementally maintained context is the context computed from scratch from the current state. -/
+theorem chain_ctx_invariant {cfg : Config} {st : State} {c : Ctx} (h : Reach cfg st c) : ctxOf cfg st = .ok c := by
+  induction h with
+  | fresh h => exact h
+  | inEpoch old news _ hN hN1 hw hmin hmax hvec hfar hvals hpk heff hsc hsn ih =>
+    exact block_eq_ctxOf old news ih hN hN1 hw hmin hmax hvec hfar hvals hpk heff hsc hsn
+  | boundary _ hN hN' hw hmin hmax hvec hfar hreg hsync hrot ih =>
+    rw [← rotate_eq_ctxOf ih hN hN' hw hmin hmax hvec hfar hreg hsync]; exact hrot
+  | upgrade _ hslot hv hm hlater hup ih =>
+    rw [← afterUpgrade_eq_ctxOf ih hslot hv hm hlater]; exact hup
+
+/-- **Reload equivalence.** Whatever is computed from a state and its context (`F`: the next transition, an
+assignment lookup, …) gives the same result on the long-lived pair and on the pair obtained by serializing the
+state, decoding it again and building a fresh context — given that the codec round-trips (C04). -/
+theorem reload_equiv {cfg : Config} {β : Type} (F : State → Ctx → β)
+    (encode : State → Bytes) (decode : Bytes → Option State) (hround : ∀ s, decode (encode s) = some s)
+    {st : State} {c : Ctx} (h : Reach cfg st c)
+    {st2 : State} {c2 : Ctx} (hd : decode (encode st) = some st2) (hc2 : ctxOf cfg st2 = .ok c2) :
+    F st2 c2 = F st c := by
+  rw [hround] at hd
+  cases hd
+  have := chain_ctx_invariant h
+  rw [this] at hc2
+  cases hc2
+  rfl
+
+/-- **Reads stay in range (partial).** Every validator index the context holds in its active lists and proposer
+list is below the length the registry — and hence the `EffectiveBalances` slice — had at the last rotation
+(`st0`: the state right after the last rotation, `st`: any later state of the same epoch `N`, related by
+`EpochWrites`): validators added since then are not in any of the three active sets. So a live context whose
+effective-balance slice was not extended by a deposit could not make the transition read out of range.
+*Partial*: the entries of `shuffling` and `committees` are values `active[compute_shuffled_index …]`, hence members
+of the active list as well, but that needs the range property of the swap-or-not index (C06) on the
+specification's loop and is not proved here. -/
+theorem ctx_reads_in_range_partial {cfg : Config} {N : Nat} {st0 st : State} {c : Ctx}
+    (hc : ctxOf cfg st = .ok c) (hN : get_current_epoch cfg st = N) (hw : EpochWrites cfg N st0 st)
+    (hmax : 1 ≤ cfg.MAX_SEED_LOOKAHEAD) (hfar : N + 1 < FAR_FUTURE_EPOCH) :
+    (∀ i ∈ c.prev.active, i < st0.validators.length) ∧ (∀ i ∈ c.cur.active, i < st0.validators.length) ∧
+    (∀ i ∈ c.next.active, i < st0.validators.length) ∧ (∀ i ∈ c.proposers.proposers, i < st0.validators.length) := by
+  obtain ⟨h1, h2, h3, h4, _⟩ := ctxOf_ok hc
+  have key : ∀ e, e ≤ N + 1 → ∀ i ∈ get_active_validator_indices st e, i < st0.validators.length := by
+    intro e he i hi
+    rw [active_stable hw e he hmax hfar] at hi
+    exact active_lt hi
+  have hP : get_previous_epoch cfg st ≤ N + 1 := by
+    unfold get_previous_epoch; rw [hN]; dsimp only [GENESIS_EPOCH]; by_cases h0 : N = 0 <;> simp [h0] <;> omega
+  rw [hN] at h1 h3 h4
+  have a1 := (shufflingOf_fields h1).2
+  have a2 := (shufflingOf_fields h2).2
+  have a3 := (shufflingOf_fields h3).2
+  refine ⟨?_, ?_, ?_, ?_⟩
+  · rw [a2]; exact key _ hP
+  · rw [a1]; exact key _ (by omega)
+  · rw [a3]; exact key _ (by omega)
+  · intro i hi
+    have := proposersOf_mem h4 i hi
+    rw [a1] at this
+    exact key _ (by omega) i this
+
 /-- non-vacuity: a state is related to itself (nothing written), for every epoch -/
 example (cfg : Config) (N : Nat) (st : State) : EpochWrites cfg N st st where
   len := Nat.le_refl _
@@ -90,5 +208,27 @@ example (cfg : Config) (N : Nat) (st : State) : EpochWrites cfg N st st where
     cases h2
   mixesLen := rfl
   mixes := fun _ _ _ => rfl
+
+/-- non-vacuity of the rotation step: advancing only the slot counter (an epoch transition that changes nothing
+else, on a state without sync committees) satisfies `EpochWrites`, `SyncStep` and the registry hypothesis together -/
+example (cfg : Config) (N : Nat) (st : State) (slot' : Nat)
+    (h1 : st.current_sync_committee = none) (h2 : st.next_sync_committee = none) :
+    EpochWrites cfg N st { st with slot := slot' } ∧ SyncStep cfg N st { st with slot := slot' } ∧
+    ({ st with slot := slot' } : State).validators.map (·.pubkey) = st.validators.map (·.pubkey) :=
+  ⟨{ len := Nat.le_refl _
+     act := fun _ _ _ h1 h2 => .inl (by simp only at h2; rw [h1] at h2; cases h2; rfl)
+     exit := fun _ _ _ h1 h2 => .inl (by simp only at h2; rw [h1] at h2; cases h2; rfl)
+     fresh := fun i v' h1 h2 => by
+       simp only at h2
+       rw [List.getElem?_eq_none_iff.mpr h1] at h2
+       cases h2
+     mixesLen := rfl
+     mixes := fun _ _ _ => rfl },
+   { boundary := fun _ _ => by simp [h1, h2]
+     inside := fun _ => ⟨rfl, rfl⟩ },
+   rfl⟩
+
+/-- non-vacuity of `Reach`: every state whose context can be built is reachable with that context -/
+example (cfg : Config) (st : State) (c : Ctx) (h : ctxOf cfg st = .ok c) : Reach cfg st c := .fresh h
 
 end Zrnt.Proofs.C08
